@@ -58,6 +58,25 @@ func (p *Prog) calleesAt(site ssa.CallInstruction) []*ssa.Function {
 			out = append(out, e.Callee.Func)
 		}
 	}
+	// precision: the receiver is the direct result of a function that always returns one
+	// concrete type -> keep only that type's method
+	if site.Common().IsInvoke() && len(out) > 1 {
+		if c, idx := callOf(site.Common().Value); c != nil && idx == 0 {
+			if g := staticCallee(c); g != nil && p.inMod(g) {
+				if ct := concreteReturnType(g); ct != nil {
+					var keep []*ssa.Function
+					for _, f := range out {
+						if f.Signature.Recv() != nil && types.Identical(derefType(f.Signature.Recv().Type()), derefType(ct)) {
+							keep = append(keep, f)
+						}
+					}
+					if len(keep) > 0 {
+						out = keep
+					}
+				}
+			}
+		}
+	}
 	sort.Slice(out, func(i, j int) bool { return out[i].String() < out[j].String() })
 	return out
 }
@@ -317,4 +336,40 @@ func (p *Prog) implsOf(pkgSuffix, iface, method string) []*ssa.Function {
 	}
 	sort.Slice(out, func(i, j int) bool { return out[i].String() < out[j].String() })
 	return out
+}
+
+func derefType(t types.Type) types.Type {
+	if p, ok := t.Underlying().(*types.Pointer); ok {
+		return p.Elem()
+	}
+	return t
+}
+
+// concreteReturnType: every return of g boxes a value of one and the same concrete type.
+func concreteReturnType(g *ssa.Function) types.Type {
+	var ct types.Type
+	for _, ret := range returnsOf(g) {
+		if len(ret.Results) != 1 {
+			return nil
+		}
+		v := ret.Results[0]
+		for {
+			if ch, ok := v.(*ssa.ChangeInterface); ok {
+				v = ch.X
+				continue
+			}
+			break
+		}
+		mi, ok := v.(*ssa.MakeInterface)
+		if !ok {
+			return nil
+		}
+		t := mi.X.Type()
+		if ct == nil {
+			ct = t
+		} else if !types.Identical(ct, t) {
+			return nil
+		}
+	}
+	return ct
 }
